@@ -366,7 +366,16 @@ impl<'de> Deserialize<'de> for Image {
                         "missing size".to_owned(),
                     )));
                 };
-                let expected_size = channels * size.height * size.width;
+                let Some(expected_size) = size
+                    .height
+                    .checked_mul(size.width)
+                    .and_then(|area| area.checked_mul(channels))
+                else {
+                    return Err(de::Error::custom(Error::ParseError(
+                        "Image",
+                        format!("size is too large {size:?}"),
+                    )));
+                };
                 let data_size = data.len();
                 if data_size != expected_size {
                     return Err(de::Error::custom(Error::ParseError(
